@@ -107,6 +107,14 @@ func (w *Watcher) Remove(name string) error {
 	return nil
 }
 
+// Drop is the simulator's: the kernel drops a watch when the watched inode is deleted (IN_DELETE_SELF), and the
+// watcher library forgets the path with it.
+func (w *Watcher) Drop(name string) {
+	w.mu.Lock()
+	delete(w.watched, name)
+	w.mu.Unlock()
+}
+
 func (w *Watcher) Close() error {
 	w.mu.Lock()
 	defer w.mu.Unlock()
